@@ -30,4 +30,25 @@ def loadLE64 (a : Array UInt8) (o : Nat) : UInt64 := UInt64.ofNat (leNat a o 8)
 def storeLE16 (a : Array UInt8) (o : Nat) (v : UInt16) : Array UInt8 := leStore a o 2 v.toNat
 def storeLE32 (a : Array UInt8) (o : Nat) (v : UInt32) : Array UInt8 := leStore a o 4 v.toNat
 def storeLE64 (a : Array UInt8) (o : Nat) (v : UInt64) : Array UInt8 := leStore a o 8 v.toNat
+/-- C `==` on two `float` / `double` values given by their bit patterns (IEEE 754 §5.11): a NaN is unequal to everything, itself included;
++0 and −0 are equal (`(a ||| b) <<< 1 == 0`: both are zeros); otherwise equal values have equal patterns -/
+def feq32 (a b : UInt32) : Bool := !isNaN32 a && !isNaN32 b && ((a == b) || (((a ||| b) <<< 1) == 0))
+def feq64 (a b : UInt64) : Bool := !isNaN64 a && !isNaN64 b && ((a == b) || (((a ||| b) <<< 1) == 0))
 end C
+namespace Prelude
+/-- `(double)f` for a C `float` f, on IEEE-754 bit patterns (binary32 → binary64).  Exact (value preserving) for every
+non-NaN input: ±0 ↦ ±0, subnormals are normalised (`Nat.log2 f` = position of the leading fraction bit), normals are re-biased
+(+896 = 1023 − 127) with the 23 fraction bits moved to the top of the 52, ±∞ ↦ ±∞.  NaN: sign kept, exponent all ones,
+fraction moved up by 29 bits **with the quiet bit (bit 51) set** — what the x86-64 instruction `cvtss2sd` produces
+(IEEE 754 leaves the payload of a converted NaN to the implementation: a platform assumption, validated by the ACC correspondence). -/
+def f32ToF64 (b : UInt32) : UInt64 :=
+  let n := b.toNat
+  let s := n / 2147483648
+  let e := n / 8388608 % 256
+  let f := n % 8388608
+  let mag : Nat :=
+    if e = 255 then (if f = 0 then 0x7FF0000000000000 else 0x7FF8000000000000 + f % 4194304 * 536870912)
+    else if e = 0 then (if f = 0 then 0 else (Nat.log2 f + 874) * 4503599627370496 + (f - 2 ^ Nat.log2 f) * 2 ^ (52 - Nat.log2 f))
+    else (e + 896) * 4503599627370496 + f * 536870912
+  UInt64.ofNat (s * 9223372036854775808 + mag)
+end Prelude
